@@ -477,6 +477,11 @@ func (g *Gen) TransportFor(minCap int, bytes int64) Transport {
 		v := []int32{0, 1, -1, 0x7fffffff, -0x80000000, 27}[g.R.Intn(6)]
 		tr.Seed = &v
 	}
+	if g.R.Bool() {
+		// tuning knob: a small read window makes the sender's window logic
+		// (slide, re-align, regrow, clamp at EOF) run on small files
+		tr.ReadWindow = []int{1024, 2048, 3000, 4096, 8192, 16384, 65536, 100000}[g.R.Intn(8)]
+	}
 	// bound the number of scheduler steps: about 40k steps per session
 	const stepTarget = 40000
 	if bytes/stepTarget > 1 {
